@@ -8,6 +8,7 @@ import (
 	"github.com/onflow/cadence/interpreter"
 	"github.com/onflow/cadence/sema"
 
+	"verif/checks/fixsat"
 	"verif/mc"
 	"verif/num"
 )
@@ -549,16 +550,31 @@ func init() {
 	rules := map[string]string{
 		"C11": "every (type, op, a, b) with a,b from the boundary lattice B(T) (all 256x256 pairs for 8-bit types; all 2^32 pairs of 16-bit types in the thorough tier) on Plus/Minus/Mul/Div/Mod/Negate of Int8..Int256, UInt8..UInt256, Int, UInt, compared with math/big; non-trivial = distinct case whose exact result is out of range or divides by zero",
 		"C12": "every (Word type, op, a, b) over the lattice (complete for Word8; complete for Word16 in thorough), compared with math/big reduced mod 2^n; non-trivial = wrapped or division by zero",
-		"C13": "every (type, saturating op, a, b) over the lattice for every integer type whose sema type declares the member; non-trivial = clamped or division by zero",
+		"C13": "every (type, saturating op, a, b) over the lattice for every integer AND fixed-point type whose sema type declares the member (integers: this package; Fix64/UFix64/Fix128/UFix128: package fixsat, classes prefixed fixed:); non-trivial = clamped or division by zero",
 		"C14": "every (type, bit op, a, b) over the lattice, shift amounts 0..width+1, around 2^31/2^32/2^63/2^64, negatives, type max; non-trivial = shift or negative-shift cases",
 	}
 	for id, p := range arithProps {
+		run, replay := runArith(p), replayArith(p)
+		if id == "C13" {
+			// the fixed-point saturating members (Fix64, UFix64, Fix128, UFix128) live in package fixsat
+			intRun, intReplay := run, replay
+			run = func(env *mc.Env) {
+				intRun(env)
+				fixsat.RunFixedSaturating(env)
+			}
+			replay = func(env *mc.Env, raw json.RawMessage) (bool, string) {
+				if v, d, mine := fixsat.ReplayFixedSaturating(env, raw); mine {
+					return v, d
+				}
+				return intReplay(env, raw)
+			}
+		}
 		mc.Register(&mc.Check{
 			ID:          id,
 			Rule:        rules[id],
 			Assumptions: []string{"math/big is the reference arithmetic", "value methods called directly with a fresh interpreter context; operator dispatch from programs is covered by the script layer of C34/C52"},
-			Run:         runArith(p),
-			Replay:      replayArith(p),
+			Run:         run,
+			Replay:      replay,
 		})
 	}
 }
